@@ -583,7 +583,27 @@ func ruleMetaCategoricalTable(r *Run, rule string, catF *ssa.Function, isTag fun
 		}
 		// the combined operand is the entry of the key built from the filter's field and value(s)
 		arg := c.S(call.Common().Args[1])
-		ok := strings.Contains(arg, ".categorical[fmt.Sprintf(") && strings.Contains(arg, "P1.Field")
+		isEntry := func(a string) bool {
+			return strings.Contains(a, ".categorical[fmt.Sprintf(") && (strings.Contains(a, "P1.Field") || strings.Contains(a, "P2.Field"))
+		}
+		ok := isEntry(arg)
+		if !ok {
+			// the entries were gathered into a local list first: every element of that list is such an entry
+			if ld, isLd := call.Common().Args[1].(*ssa.UnOp); isLd && ld.Op == token.MUL {
+				if ia, isIA := ld.X.(*ssa.IndexAddr); isIA {
+					if elems, okE := sliceElems(ia.X); okE && len(elems) > 0 {
+						ok = true
+						for _, e := range elems {
+							es := c.S(e)
+							// a map lookup with comma-ok: extract #0
+							if !isEntry(es) {
+								ok = false
+							}
+						}
+					}
+				}
+			}
+		}
 		r.Check(ok, rule, "cat:operand:"+m+":"+reach[call.Block()].String(), w.InstrPos(call)+" "+name, "combined with the entry of key(field, value)", "combined operand is "+arg)
 	}
 	for op, wc := range wantComb {
